@@ -19,7 +19,10 @@
 //   - flatten.go: real []schema.Change -> the same descriptor type (observation side);
 //   - perm.go: declaration-order permutations (tables, columns, indexes, foreign keys, checks, enums,
 //     attribute order) used for "permuted copy" identity cases;
-//   - pool.go: hand written base models per dialect that together hold every feature the differs look at.
+//   - pool.go: hand written base models per dialect that together hold every feature the differs look at,
+//     fixed-seed derived models, and the small constructors (Col, Idx, FK, Chk, …) they are written with;
+//   - alphabet.go: the value alphabets (types, defaults, charsets, engines, comments, actions) of the pool
+//     and of the edits, and the per-dialect type constructors T(d).Int(), T(d).Str(20), ….
 //
 // Naming convention (name space tags, so token level oracles can classify identifiers without parsing
 // SQL): tables t…, columns c…, indexes i…, constraints (foreign keys, checks) k…, enum types e….
@@ -150,6 +153,7 @@ type Part struct {
 	Desc       bool     `json:"desc,omitempty"`
 	Prefix     int      `json:"prefix,omitempty"`      // MySQL sub_part
 	NullsFirst *bool    `json:"nulls_first,omitempty"` // PostgreSQL explicit NULLS FIRST(true)/LAST(false)
+	Ops        string   `json:"ops,omitempty"`         // PostgreSQL non-default operator class, e.g. text_pattern_ops
 }
 
 // Key is a canonical string of the part.
@@ -158,7 +162,7 @@ func (p Part) Key() string {
 	if p.NullsFirst != nil {
 		nf = fmt.Sprint(*p.NullsFirst)
 	}
-	return fmt.Sprintf("%s|%s|%v|%d|%s", p.Col, p.Expr, p.Desc, p.Prefix, nf)
+	return fmt.Sprintf("%s|%s|%v|%d|%s|%s", p.Col, p.Expr, p.Desc, p.Prefix, nf, p.Ops)
 }
 
 // Index is a secondary index. Name "" is an unnamed index (only used by the generated-name classes).
@@ -586,7 +590,7 @@ func (m *Model) Validate() error {
 				if err := has(p.ExprCols...); err != nil {
 					return err
 				}
-				if p.Prefix != 0 && m.Dialect != MySQL || p.NullsFirst != nil && m.Dialect != Postgres {
+				if p.Prefix != 0 && m.Dialect != MySQL || (p.NullsFirst != nil || p.Ops != "") && m.Dialect != Postgres {
 					return fmt.Errorf("index %s.%s: part attribute of another dialect", t.Name, i.Name)
 				}
 			}
